@@ -22,6 +22,9 @@ type World struct {
 	Chans    []*Chan
 	Arenas   []*Arena
 	Params   map[string]int
+	Objs     []*Object
+	WG       map[string]int64 // WaitGroup counters after set-up
+	Timers   []*Chan
 	// statistics
 	FuncsSeen map[string]int
 	StubsUsed map[string]int
@@ -128,10 +131,12 @@ type Machine struct {
 	nobj     int
 	nmap     int
 	inSetup  bool
+	trackObjs bool
 
 	// BMC extraction
 	procMode bool
 	stopped  bool
+	cut      bool
 	overlay  map[*Object]Value
 	symHeap  map[*Object]Value
 	reads    map[string]bool
@@ -141,9 +146,10 @@ type Machine struct {
 	covers   []string
 	inputs   []*term.T // fresh variables created on this path
 	procs    []*Proc   // setup: registered processes
-	finals   []*FuncV
-	invars   []*FuncV
+	finals   []labeledFn
+	invars   []labeledFn
 	curProc  *Proc
+	pathUpd  map[*term.T]*term.T
 	bmcHooks *bmcHooks
 
 	choiceLog map[string]string // name#n -> value (for replay files)
@@ -504,6 +510,15 @@ func (m *Machine) jump(fr *Frame, to *ssa.BasicBlock) {
 	if m.fuel <= 0 {
 		unsupported("fuel exhausted (unwinding bound) in %s", fr.fn)
 	}
+	if m.procMode {
+		if fr.visited == nil {
+			fr.visited = map[*ssa.BasicBlock]int{}
+		}
+		fr.visited[to]++
+		if fr.visited[to] > 1 {
+			m.cut = true // a local loop without a visible operation: silent cut-point
+		}
+	}
 	// phis
 	var pidx int = -1
 	for i, p := range to.Preds {
@@ -548,7 +563,7 @@ func (m *Machine) step() {
 		unsupported("fell off block in %s", fr.fn)
 	}
 	instr := fr.blk.Instrs[fr.idx]
-	if m.procMode && m.bmcHooks != nil && m.bmcHooks.visible(m, fr, instr) {
+	if m.procMode && m.bmcHooks != nil && (m.cut || m.bmcHooks.visible(m, fr, instr)) {
 		m.stopped = true
 		return
 	}
@@ -1155,6 +1170,21 @@ func (m *Machine) findSub(t types.Type, off int64, et types.Type, path []int) ([
 	return nil, false
 }
 
+// getTypeAt is the static type of the sub-object of t at path.
+func getTypeAt(t types.Type, path []int) types.Type {
+	for _, i := range path {
+		switch u := under(t).(type) {
+		case *types.Struct:
+			t = u.Field(i).Type()
+		case *types.Array:
+			t = u.Elem()
+		default:
+			unsupported("type path into %s", t)
+		}
+	}
+	return t
+}
+
 // ---- slices, arrays, maps
 
 func (m *Machine) makeSlice(et types.Type, l, c int) *SliceV {
@@ -1193,9 +1223,36 @@ func (m *Machine) concreteIndex(i Value, n int, what string) int {
 	return n - 1
 }
 
+// symIndex checks the bounds of a symbolic index (forking off the panic) and
+// returns it as a 64-bit term, or nil if the index is concrete.
+func (m *Machine) symIndex(i Value, n int, what string) *term.T {
+	t := i.(*term.T)
+	if t.S.W < 64 {
+		t = m.F.SExt(64, t)
+	}
+	if t.IsConst() {
+		return nil
+	}
+	if !m.branch(m.F.ULt(t, m.F.BVC(64, uint64(n))), what) {
+		m.goPanic("index out of range (symbolic)")
+	}
+	return t
+}
+
 func (m *Machine) index(x, i Value, xt types.Type) Value {
 	switch a := x.(type) {
 	case *ArrayV:
+		if t := m.symIndex(i, len(a.E), "array index"); t != nil {
+			var res Value
+			for k := len(a.E) - 1; k >= 0; k-- {
+				if res == nil {
+					res = a.E[k]
+				} else {
+					res = m.merge(m.F.Eq(t, m.F.BVC(64, uint64(k))), a.E[k], res)
+				}
+			}
+			return res
+		}
 		return a.E[m.concreteIndex(i, len(a.E), "array index")]
 	case string:
 		k := m.concreteIndex(i, len(a), "string index")
@@ -1221,14 +1278,23 @@ func (m *Machine) index(x, i Value, xt types.Type) Value {
 func (m *Machine) indexAddr(x, i Value) Value {
 	switch a := x.(type) {
 	case *SliceV:
+		if t := m.symIndex(i, a.Len, "slice index"); t != nil {
+			return &PtrV{Obj: a.Obj, SymIdx: t, SymN: a.Len, Base: a.Off}
+		}
 		k := m.concreteIndex(i, a.Len, "slice index")
 		return &PtrV{Obj: a.Obj, Path: []int{a.Off + k}}
 	case *PtrV: // pointer to array
 		if a.IsNil() {
 			m.goPanic("nil pointer dereference")
 		}
-		arr := m.load(a).(*ArrayV)
-		k := m.concreteIndex(i, len(arr.E), "array index")
+		if a.SymIdx != nil || a.Arena != nil {
+			unsupported("index through a symbolic pointer")
+		}
+		n := int(under(getTypeAt(a.Obj.T, a.Path)).(*types.Array).Len())
+		if t := m.symIndex(i, n, "array index"); t != nil {
+			return &PtrV{Obj: a.Obj, Path: append([]int(nil), a.Path...), SymIdx: t, SymN: n}
+		}
+		k := m.concreteIndex(i, n, "array index")
 		return a.sub(k)
 	}
 	unsupported("indexaddr of %T", x)
